@@ -41,5 +41,13 @@ check("C18", "exploration",
       "and watchdog expiry are attributed per input by the fork runner.",
       "Trusted: the harness's structural comparer; ASan for over-reads (terminator poisoned, exact-size heap buffer).",
       "sanitizer-instrumented execution + round-trip oracle over generated values and mutated texts", "DESIGN.md section 5 C18")
+check("C19", "exploration",
+      "~2k/100k file contents (all prefixes of length 0..12 of 36 snippets, random cuts of shipped scripts, +-BOM, double BOM, partial BOMs, "
+      "CRLF, shebang, trailing NULs) are evaluated through eval_file and through eval(bytes minus one BOM) on two fresh engines: class, result, "
+      "reason, position, stdout and the number of bytes handed to the parser (hook) must agree; missing files must raise file_not_found_error; "
+      "600/30k histories of use()/eval_file() (C++ and script level) over logging files in up to 3 search directories, with nested and failing "
+      "includes, are checked call by call against a model of the used set (exactly-once, search order, error propagation).",
+      "Trusted: hook H3b (first_parse_input_size), the python model of use(). Cyclic includes are not generated.",
+      "differential execution (file vs string) + model-checked call histories with a logging callback, under ASan", "DESIGN.md section 5 C19")
 for _p in ["C%02d" % i for i in range(2, 21) if "C%02d" % i not in CHECKS]:
     NA[_p] = "check not implemented yet in this revision (work in progress, see DESIGN.md); nothing is claimed"
